@@ -72,8 +72,9 @@ def get_level(snr,
             
     # Get amplitude required for cosine signal to get required SNR
     int_factor = 1 # level has no dependence on integration factor
-    dt = raw_voltage_backend.tbin * fftlength * int_factor
-    tchans = int(raw_voltage_backend.time_per_block * num_blocks / dt)
+    # Whole fine spectra in the recorded blocks, in integer arithmetic: the float quotient
+    # time_per_block * num_blocks / dt can land just below an integer and lose a spectrum
+    tchans = int(num_blocks) * int(raw_voltage_backend.samples_per_block) // (int(fftlength) * int_factor)
     
     chi_df = 2 * raw_voltage_backend.num_pols * int_factor
     # main_mean = (raw_voltage_backend.requantizer.target_sigma)**2 * chi_df * raw_voltage_backend.filterbank.max_mean_ratio
